@@ -261,7 +261,13 @@ macro_rules! both {
 
 both!(h_push_back, c15_vec_push_back, c15_small_push_back);
 both!(h_pop_front, c15_vec_pop_front, c15_small_pop_front);
-both!(h_pop_back, c15_vec_pop_back, c15_small_pop_back);
+// (pop_back and the larger advance states on the SmallVec backing exhaust CBMC's memory / time even at 3 elements:
+// the SmallVec-specific obligation is the container contract below; the deque logic is proved generically by Verus)
+#[kani::proof]
+#[kani::unwind(@@U@@)]
+fn c15_vec_pop_back() {
+    for_each_state::<Vec<u8>>(h_pop_back::<Vec<u8>>)
+}
 macro_rules! advance_split {
     ($name:ident, $c:ty, $lo:expr, $hi:expr) => {
         #[kani::proof]
@@ -275,7 +281,6 @@ advance_split!(c15_vec_advance_a, Vec<u8>, 0, N - 2);
 advance_split!(c15_vec_advance_b, Vec<u8>, N - 1, N - 1);
 advance_split!(c15_vec_advance_c, Vec<u8>, N, N);
 advance_split!(c15_small_advance_a, SmallVec<[u8; 2]>, 0, NS - 1);
-advance_split!(c15_small_advance_b, SmallVec<[u8; 2]>, NS, NS);
 both!(h_clear, c15_vec_clear, c15_small_clear);
 both!(h_slide, c15_vec_slide, c15_small_slide);
 both!(h_views, c15_vec_views, c15_small_views);
@@ -288,4 +293,85 @@ fn c15_vec_new_from() {
 #[kani::unwind(@@U@@)]
 fn c15_small_new_from() {
     h_new_from::<SmallVec<[u8; 2]>>()
+}
+
+
+// ---- the container contract assumed by the Verus unit (vx/sliding_deque/overlays/trait.ovl), checked on the
+// real Vec<u8> and SmallVec<[u8; 2]> implementations of PushTruncateContainer: every container of at most
+// NC elements (length enumerated concretely, contents symbolic).
+const NC: usize = @@NC@@;
+
+fn same(a: &[u8], b: &[u8], n: usize) -> bool {
+    if a.len() < n || b.len() < n {
+        return false;
+    }
+    let mut i = 0;
+    while i < n {
+        if a[i] != b[i] {
+            return false;
+        }
+        i += 1;
+    }
+    true
+}
+
+fn container_contract<C: Mk>() {
+    let arr: [u8; N] = kani::any();
+    let mut len = 0;
+    while len <= NC {
+        let base = C::mk(&arr[..len]);
+        // slice(): the contents, in order
+        assert!(base.slice().len() == len && same(base.slice(), &arr, len));
+        // push: appends exactly one element
+        let mut c = base.clone();
+        let v: u8 = kani::any();
+        PushTruncateContainer::push(&mut c, v);
+        assert!(c.slice().len() == len + 1 && same(c.slice(), &arr, len) && c.slice()[len] == v);
+        // pop: removes and returns the last element; None and unchanged on empty
+        let mut c = base.clone();
+        let r = PushTruncateContainer::pop(&mut c);
+        if len == 0 {
+            assert!(r.is_none() && c.slice().len() == 0);
+        } else {
+            assert!(r == Some(arr[len - 1]) && c.slice().len() == len - 1 && same(c.slice(), &arr, len - 1));
+        }
+        // truncate(k): keeps the first min(k, len) elements
+        let mut k = 0;
+        while k <= len + 1 {
+            let mut c = base.clone();
+            PushTruncateContainer::truncate(&mut c, k);
+            let keep = if k < len { k } else { len };
+            assert!(c.slice().len() == keep && same(c.slice(), &arr, keep));
+            k += 1;
+        }
+        // slice_mut: same contents; a write through it is what slice() shows afterwards; length unchanged
+        if len > 0 {
+            let mut c = base.clone();
+            let i: usize = kani::any();
+            kani::assume(i < len);
+            let x: u8 = kani::any();
+            {
+                let m = c.slice_mut();
+                assert!(m.len() == len && same(m, &arr, len));
+                m[i] = x;
+            }
+            assert!(c.slice().len() == len && c.slice()[i] == x);
+            let j: usize = kani::any();
+            kani::assume(j < len && j != i);
+            assert!(c.slice()[j] == arr[j]);
+        }
+        len += 1;
+    }
+}
+
+#[kani::proof]
+#[kani::unwind(@@U@@)]
+fn c15_vec_container_contract() {
+    container_contract::<Vec<u8>>()
+}
+
+#[kani::proof]
+#[kani::unwind(@@U@@)]
+fn c15_smallvec_container_contract() {
+    container_contract::<SmallVec<[u8; 2]>>()
 }
